@@ -7098,6 +7098,10 @@ class FrameGO(Frame):
         if isinstance(container, Frame):
             if not len(container.columns):
                 return
+            # validate before mutating, so that a rejected call leaves columns and blocks in step
+            for label in container.keys():
+                if label in self._columns:
+                    raise KeyError(f'duplicate key append attempted: {label}')
             self._columns.extend(container.keys())
             self._blocks.extend(container._blocks)
         elif isinstance(container, Series):
